@@ -9,7 +9,7 @@ def main():
     c.trusted = ["Coq 8.16.1 kernel (coqc; vm_compute only in Examples)"] + interval.TRUSTED
     c.assumptions = interval.ASSUMPTIONS
     c.kind_filter = lambda k: k not in vlib.LIFETIME_KINDS     # lifetime/allocation kinds belong to C16 (the tree owns nothing)
-    c.prove()
+    c.prove(['C07', 'C07_ptr'])    # C07_ptr: interval_tree on the pointer-level rbtree model: subtree_max fields and for_overlaps exact
     interval.run(c)
     sys.exit(c.finish())
 
